@@ -146,6 +146,13 @@ Arguments SAppend {A} data env now now2. Arguments SFlush {A}. Arguments SRoll {
 Arguments lf_step {A} c s o. Arguments lf_run {A} c s ops. Arguments files_in_order {A} s.
 Arguments handed {A} o. Arguments op_error {A} o. Arguments op_record {A} o.
 
+(* order-preserving selection: [subseq l1 l2] = l1 is l2 with some positions left out (each position of l2
+   used at most once, order kept) -- "at most once, in order" as a relation between lists *)
+Inductive subseq {X : Type} : list X -> list X -> Prop :=
+| subseq_nil : subseq [] []
+| subseq_skip x l1 l2 : subseq l1 l2 -> subseq l1 (x :: l2)
+| subseq_take x l1 l2 : subseq l1 l2 -> subseq (x :: l1) (x :: l2).
+
 (* ====================================================================== (ii) AsyncLogging *)
 
 (* shape parameters; [current_params] are the values regenerated from /repo *)
